@@ -9,6 +9,7 @@ import ecache
 import ewrap
 import kinds
 import i64table
+import eterm
 import tables
 import estep
 import ewho
@@ -40,6 +41,11 @@ def run(ctx):
     n = i64table.run(ctx, F)
     ctx.explain("E-NUM.f64: F64 terminals are built from constants or through the normalising From<f64> only.")
     i64table.check_f64_constructors(ctx, F)
+    ctx.explain("E-NUM.terminals: F64::from normalises both NaN signs and -0.0; F64 eq / hash are the value's bits; partial_cmp treats NaN "
+                "as equal to NaN and unordered otherwise; the text forms (AsciiDisplay, Display) of NaN, -inf, +inf and numbers are read "
+                "back by ParseTagged::parse as the same value, for F64 and I64 (interpreted, f64 bit patterns exact).")
+    nt = eterm.run(ctx, F)
+    ctx.floor("E-NUM.terminals", "interpreted terminal situations", nt, 81)
     ctx.floor("E-TABLE.i64", "abstract cases of the I64 operators", n, 140)
     ctx.explain("E-TABLE.step: the recursive (Shannon expansion) step is interpreted on structured abstract operands -- inner nodes "
                 "with opaque or nested children in every relative level configuration (and every complement-tag "
